@@ -7,6 +7,7 @@ pub fn register(v: &mut Vec<(&'static str, crate::Harness)>) {
     v.push(("h_c08_index_round_trip", h_c08_index_round_trip));
     v.push(("h_c08_interning", h_c08_interning));
     v.push(("h_c08_builtins_and_parse", h_c08_builtins_and_parse));
+    v.push(("h_c08_parsed_names", h_c08_parsed_names));
     v.push(("h_c08_html5", h_c08_html5));
 }
 
@@ -159,4 +160,66 @@ pub fn h_c08_html5() {
         let _h = xot.html5();
     }
     sym::check("html-names-are-stable-across-html5-calls", hr.is_some() && xot.name("hr") == hr && xot.add_name("hr") == hr.unwrap());
+}
+
+/// names registered implicitly by parsing, looked at only through the read-only lookups (nothing is registered
+/// directly before the checks): siblings with the same spelling under different bindings, names longer than
+/// anything registered through the API, and the ids the nodes carry resolve back to what was written
+pub fn h_c08_parsed_names() {
+    let mut xot = Xot::new();
+    let t = sym::any_string("t", 1);
+    for c in t.chars() {
+        let u = c as u32;
+        sym::assume(((u >= 0x61) & (u <= 0x7a)) | ((u >= 0x41) & (u <= 0x5a)));
+    }
+    let long = format!("configuration{}", t);
+    let long_attr = format!("{}attributename", t);
+    let order = sym::choose("order", 2);
+    // the same spelling p:T three times: rebinding p itself / under the outer binding / declaring something else
+    let kids = if order == 0 {
+        format!("<p:{t} xmlns:p=\"urn:inner\"/><p:{t}/><p:{t} xmlns:q=\"urn:q\"/>", t = t)
+    } else {
+        format!("<p:{t}/><p:{t} xmlns:p=\"urn:inner\"/><p:{t} xmlns:q=\"urn:q\"/>", t = t)
+    };
+    let src = format!("<r xmlns:p=\"urn:outer\">{}<{} {}=\"1\"/><{t} xmlns=\"urn:inner\"/><{t}/></r>", kids, long, long_attr, t = t);
+    let doc = match xot.parse(&src) {
+        Ok(d) => d,
+        Err(_) => {
+            sym::check("well-formed-document-accepted", false);
+            return;
+        }
+    };
+    let r = xot.document_element(doc).unwrap();
+    let k: Vec<xot::Node> = xot.children(r).collect();
+    sym::check("child-count", k.len() == 6);
+    if k.len() != 6 {
+        return;
+    }
+    let (outer, inner) = (xot.namespace("urn:outer"), xot.namespace("urn:inner"));
+    sym::check("parsed-namespaces-found-by-read-only-lookup", outer.is_some() && inner.is_some() && outer != inner);
+    let (outer, inner) = (outer.unwrap(), inner.unwrap());
+    let (first_ns, second_ns) = if order == 0 { (inner, outer) } else { (outer, inner) };
+    let n_first = xot.name_ns(&t, first_ns);
+    let n_second = xot.name_ns(&t, second_ns);
+    sym::check("same-spelling-different-binding-different-id", n_first.is_some() && n_second.is_some() && n_first != n_second);
+    sym::check("first-sibling-name", xot.node_name(k[0]) == n_first);
+    sym::check("second-sibling-name", xot.node_name(k[1]) == n_second);
+    sym::check("third-sibling-name", xot.node_name(k[2]) == xot.name_ns(&t, outer));
+    for (i, ns) in [(0, first_ns), (1, second_ns), (2, outer)] {
+        let id = xot.node_name(k[i]).unwrap();
+        sym::check("id-resolves-to-what-was-written", xot.name_ns_str(id) == (t.as_str(), xot.namespace_str(ns)));
+    }
+    // long names registered only by the parser
+    let ln = xot.name(&long);
+    sym::check("parsed-long-name-found-by-read-only-lookup", ln.is_some() && xot.node_name(k[3]) == ln);
+    let la = xot.name(&long_attr);
+    sym::check("parsed-long-attribute-name-found-by-read-only-lookup", la.is_some() && xot.attributes(k[3]).contains_key(la.unwrap()));
+    // unprefixed siblings: default namespace on the first only
+    sym::check("unprefixed-sibling-with-own-default", xot.node_name(k[4]) == xot.name_ns(&t, inner));
+    sym::check("unprefixed-sibling-without-default", xot.node_name(k[5]) == xot.name(&t) && xot.name(&t).is_some() && xot.name(&t) != xot.name_ns(&t, inner));
+    // registering afterwards returns the ids the parser made
+    sym::check("later-registration-returns-the-parsers-id", Some(xot.add_name(&long)) == ln && Some(xot.add_name_ns(&t, first_ns)) == n_first);
+    // a clone answers the same
+    let copy = xot.clone();
+    sym::check("clone-finds-parsed-names", copy.name(&long) == ln && copy.name_ns(&t, second_ns) == n_second);
 }
